@@ -24,6 +24,7 @@ import lzma
 import os
 import shutil
 import tempfile
+import time
 import traceback
 import zipfile
 
@@ -185,6 +186,10 @@ def run_scenario(rec, sc, fault=None, golden=None):
             previous = b"previous content " + bytes([sc["cseed"] % 256]) * 100
             with open(target, "wb") as fh:
                 fh.write(previous)
+            if sc["cseed"] % 2:
+                # the existing archive carries a time stamp from the future (clock skew, a restore)
+                future = time.time() + 86400
+                os.utime(target, (future, future))
         dtarget = os.path.join(tdir, "explicit_decompressed.tmp") if sc.get("dtarget") else None
         pre_dtarget = bool(dtarget and sc.get("dtarget_pre"))
         cs = codes()
